@@ -89,6 +89,10 @@ def case_prog(rep, drv, rnd, i, tier):
 
 
 def case(rep, drv, rnd, i, tier):
+    if i % 16 == 9:
+        # findall over goals that bind the template through chains of variables (the committed-goal family of C09)
+        from . import c09
+        return c09.committed_goal_case(rep, drv, rnd, i)
     if i % 3 == 2:
         case_prog(rep, drv, rnd, i, tier)
     else:
